@@ -116,14 +116,28 @@ def _run(cmd, cwd=None, timeout=None, env=None, inp=None):
 
 
 class Lock:
+    """exclusive while Gen files are rewritten and lake builds; shared while a driver only reads the build"""
+    def __init__(self, shared=False):
+        self.mode = fcntl.LOCK_SH if shared else fcntl.LOCK_EX
+
     def __enter__(self):
-        self.f = open(os.path.join(LEAN, '.lock'), 'w')
-        fcntl.flock(self.f, fcntl.LOCK_EX)
+        self.f = open(os.path.join(LEAN, '.lock'), 'a')
+        fcntl.flock(self.f, self.mode)
         return self
 
     def __exit__(self, *a):
         fcntl.flock(self.f, fcntl.LOCK_UN)
         self.f.close()
+
+
+def gen_fingerprint():
+    h = hashlib.sha1()
+    d = os.path.join(LEAN, 'ChemModel', 'Gen')
+    for fn in sorted(os.listdir(d)):
+        if fn.endswith('.lean'):
+            h.update(fn.encode())
+            h.update(open(os.path.join(d, fn), 'rb').read())
+    return h.hexdigest()
 
 
 def extract_all():
@@ -303,47 +317,62 @@ def check(prop, tier, seed):
     use_repo()
 
     # 1-3: extract, build, audit (serialised between concurrently running checks)
-    with Lock():
-        problems = extract_all()
-        for p in problems:
-            log('extract:', p)
-        mods = [prop.props_module] + list(prop.build_modules)
-        ok, errors, out = lake_build(mods)
-        thms = {}
-        if not ok:
-            for e in errors:
-                broken.append({'what': 'lean-build', 'file': e['file'], 'line': e['line'], 'decl': e.get('decl'), 'msg': e['msg']})
-            # try to build the model/driver part alone so that the correspondence can still run
-            ok_model, _, _ = lake_build(list(prop.build_modules)) if prop.build_modules else (True, [], '')
-        else:
-            ok_model = True
-            rc, thms, aout = audit(prop.props_module)
-            if rc != 0 or not thms:
-                broken.append({'what': 'axiom-audit', 'msg': aout[-500:]})
-            for t, axs in thms.items():
-                bad = [a for a in axs if a not in ALLOWED_AXIOMS]
-                if bad:
-                    broken.append({'what': 'axioms', 'decl': t, 'msg': 'depends on ' + ', '.join(bad)})
-            if tier == 'thorough':
-                rc, lout = _run(['lake', 'env', 'leanchecker', prop.props_module], cwd=LEAN, timeout=3000)
-                if rc != 0:
-                    broken.append({'what': 'leanchecker', 'msg': lout[-500:]})
-        hits = source_scan()
-        for h in hits:
-            broken.append({'what': 'forbidden-construct', 'msg': h})
+    def build_phase():
+        nonlocal thms
+        br = []
+        with Lock():
+            problems = extract_all()
+            for p in problems:
+                log('extract:', p)
+            mods = [prop.props_module] + list(prop.build_modules)
+            ok, errors, out = lake_build(mods)
+            thms = {}
+            if not ok:
+                for e in errors:
+                    br.append({'what': 'lean-build', 'file': e['file'], 'line': e['line'], 'decl': e.get('decl'), 'msg': e['msg']})
+                # try to build the model/driver part alone so that the correspondence can still run
+                ok_model, _, _ = lake_build(list(prop.build_modules)) if prop.build_modules else (True, [], '')
+            else:
+                ok_model = True
+                rc, thms, aout = audit(prop.props_module)
+                if rc != 0 or not thms:
+                    br.append({'what': 'axiom-audit', 'msg': aout[-500:]})
+                for t, axs in thms.items():
+                    bad = [a for a in axs if a not in ALLOWED_AXIOMS]
+                    if bad:
+                        br.append({'what': 'axioms', 'decl': t, 'msg': 'depends on ' + ', '.join(bad)})
+                if tier == 'thorough':
+                    rc, lout = _run(['lake', 'env', 'leanchecker', prop.props_module], cwd=LEAN, timeout=3000)
+                    if rc != 0:
+                        br.append({'what': 'leanchecker', 'msg': lout[-500:]})
+            for h in source_scan():
+                br.append({'what': 'forbidden-construct', 'msg': h})
+            return ok, ok_model, br, gen_fingerprint()
 
-        # 4: correspondence + oracle
-        cases = list(prop.corpus()) + list(prop.generate(rng, n, tier))
-        mcases = [safe(prop.model_case, c) for c in cases]
-        op_cases = [m for m in mcases if isinstance(m, dict)]
-        model_out = []
-        if prop.driver and ok_model and op_cases:
-            okd, model_out = run_driver(prop.driver, [json.dumps(c) for c in op_cases])
-            if not okd:
-                broken.append({'what': 'driver', 'msg': 'driver failed or line count mismatch: ' + '\n'.join(model_out[-5:])[:500]})
-                model_out = []
-        elif prop.driver and op_cases:
-            broken.append({'what': 'driver', 'msg': 'model does not build; correspondence not run'})
+    thms = {}
+    ok, ok_model, build_broken, fp = build_phase()
+
+    # 4: correspondence + oracle (case generation and the real code run outside the lock)
+    cases = list(prop.corpus()) + list(prop.generate(rng, n, tier))
+    mcases = [safe(prop.model_case, c) for c in cases]
+    op_cases = [m for m in mcases if isinstance(m, dict)]
+    model_out = []
+    if prop.driver and op_cases:
+        for attempt in range(3):
+            if not ok_model:
+                break
+            with Lock(shared=True):
+                if gen_fingerprint() == fp:
+                    okd, model_out = run_driver(prop.driver, [json.dumps(c) for c in op_cases])
+                    if not okd:
+                        build_broken.append({'what': 'driver', 'msg': 'driver failed or line count mismatch: ' + '\n'.join(model_out[-5:])[:500]})
+                        model_out = []
+                    break
+            # another run (e.g. against a scratch tree) regenerated Gen in between: rebuild for this tree
+            ok, ok_model, build_broken, fp = build_phase()
+        if not ok_model:
+            build_broken.append({'what': 'driver', 'msg': 'model does not build; correspondence not run'})
+    broken.extend(build_broken)
 
     stats = {}
     distinct = set()
